@@ -45,3 +45,17 @@ pub fn event(kind: &'static str, id: usize) {
 pub fn take_events() -> Vec<(&'static str, usize)> {
     EVENTS.with_borrow_mut(|v| std::mem::take(v))
 }
+
+thread_local! {
+    static UF_WRITES: RefCell<Vec<(usize, String)>> = RefCell::new(Vec::new());
+}
+
+/// Records one `unionfind_set(i, entry)` call (the entry in the encoding of `verif_snapshot`).
+pub fn uf_write(i: usize, entry: &AppliedId) {
+    UF_WRITES.with_borrow_mut(|v| v.push((i, crate::verif_enc_applied_id(entry))));
+}
+
+/// Returns and clears the union-find write log of the current thread.
+pub fn take_uf_writes() -> Vec<(usize, String)> {
+    UF_WRITES.with_borrow_mut(|v| std::mem::take(v))
+}
